@@ -60,6 +60,9 @@ pub struct Rich {
     pub att_pos_plain: usize,
     pub att_pos_te: usize,
     pub att_bundle: usize,
+    /// (pool, mint, token account): funded token accounts of the pool's mints (and reward mints) whose authority is the pool itself
+    /// but which are not its vaults — anybody can create such an account
+    pub stray: Vec<(usize, Pubkey, Pubkey)>,
 }
 
 fn dynamic(spec: &RichSpec, n: u8) -> bool {
@@ -123,7 +126,10 @@ impl Rich {
             }
         }
         for p in [p0, p1, pa] {
-            for (i, rm) in [&r0, &r1].iter().enumerate() {
+            // pool p1 pays its second reward in one of its own tokens (X, the mint it shares with p0): its reward vault is then a
+            // token account of a pool mint, owned by the pool, that is not the pool's vault
+            let second = if p == p1 { &mx } else { &r1 };
+            for (i, rm) in [&r0, second].iter().enumerate() {
                 let idx = w.init_reward(p, rm, i == 1).expect("init reward");
                 let vault = w.pools[p].rewards[idx].vault;
                 w.mint_to(rm, &vault, 1 << 50);
@@ -241,7 +247,23 @@ impl Rich {
         w.must("attacker open bundled", &ix);
         w.positions.push(info);
         let sibling: std::collections::BTreeSet<Pubkey> = w.bank.accounts.keys().filter(|k| !before.contains(k)).cloned().collect();
+        // stray token accounts: right mint, authority = the pool, funded, but not the pool's vault
+        let mut stray = vec![];
+        for p in [p0, p1, pa] {
+            let pk = w.pools[p].key;
+            let mut mints = vec![w.pools[p].mint_a.clone(), w.pools[p].mint_b.clone()];
+            for rw in w.pools[p].rewards.clone() {
+                if !mints.iter().any(|m| m.key == rw.mint.key) {
+                    mints.push(rw.mint);
+                }
+            }
+            for m in mints {
+                let t = w.create_token_account(&m, &pk, 1 << 45);
+                stray.push((p, m.key, t));
+            }
+        }
         Rich {
+            stray,
             sibling,
             cfg_att,
             att_pos_plain,
